@@ -4100,6 +4100,12 @@ static std::list<ValueFlow::Value> truncateValues(std::list<ValueFlow::Value> va
             value.valueType = ValueFlow::Value::ValueType::INT;
         }
 
+        // a bit-field holds the value reduced to its width
+        if (value.isIntValue() && dst->pointer == 0 && dst->bits > 0 && dst->bits < MathLib::bigint_bits) {
+            value = ValueFlow::castValue(value, ValueFlow::getConversionSign(*dst, settings), dst->bits);
+            continue;
+        }
+
         if (value.isIntValue() && sz > 0 && sz < sizeof(MathLib::biguint))
             value.intvalue = ValueFlow::truncateIntValue(value.intvalue, sz, ValueFlow::getConversionSign(*dst, settings));
     }
